@@ -43,6 +43,9 @@ var AllowShapes = [][]string{
 	{"// @packageonly ex.com/m/x-y.z, w"},
 	{"// @packageonly other ,u  and some prose"},
 	{"// @packageonly other,"},
+	{"// @packageonly zz, zz, u"},
+	{"// @packageonly ex.com/m/d, w"},
+	{"// @packageonly zz, ex.com/m/d ,zz , ex.com/m/x/u"},
 }
 
 // allowList is the reference reading of a shape: the union of all names on all lines.
@@ -68,6 +71,12 @@ func allowList(shape int) []string {
 		return []string{"ex.com/m/x-y.z", "w"}
 	case 13:
 		return []string{"other"}
+	case 14:
+		return []string{"zz", "u"}
+	case 15:
+		return []string{"ex.com/m/d", "w"}
+	case 16:
+		return []string{"zz", "ex.com/m/d", "ex.com/m/x/u"}
 	}
 	return nil
 }
@@ -163,6 +172,7 @@ func UseSites() []UseSite {
 		{Tag: "mcall sp.ResetP()", Stmt: "sp.ResetP()", Kind: UKMethod, TONL: true},
 		{Tag: "mcall s.ResetP()", Stmt: "s.ResetP()", Kind: UKMethod, TONL: true},
 		{Tag: "mcall sp.Reset()", Stmt: "sp.Reset()", Kind: UKMethod, TONL: true},
+		{Tag: "mcall s3.Reset() second receiver", Stmt: "s3.Reset()", Kind: UKMethod, TONL: true, Core: true},
 		{Tag: "lit Mock{}", Stmt: "_ = {q}Mock{}", Kind: UKType, Type: "Mock", TONL: true, Core: true},
 		{Tag: "lit &Mock{}", Stmt: "_ = &{q}Mock{}", Kind: UKType, Type: "Mock", TONL: true},
 		{Tag: "var m Mock", Stmt: "var $v {q}Mock; _ = $v", Kind: UKType, Type: "Mock", TONL: true, Core: true},
@@ -183,6 +193,11 @@ func UseSites() []UseSite {
 		{Tag: "shadow local Helper", Stmt: "func() { Helper := func() int { return 0 }; _ = Helper() }()", Kind: UKNone, TONL: true, Core: true},
 		{Tag: "shadow param Helper", Stmt: "func(Helper func() int) { _ = Helper() }(nil)", Kind: UKNone, TONL: true},
 		{Tag: "shadow field-func Reset()", Stmt: "struct{ Reset func() }{Reset: func() {}}.Reset()", Kind: UKNone, TONL: true},
+		// function-local aliases: the same spelling "LA" denotes the annotated type in one block and the twin in another
+		{Tag: "local alias LA=Mock; var v LA", Stmt: "{ type LA = {q}Mock; var $v LA; _ = $v }", Kind: UKType, Type: "Mock", TONL: true, Core: true},
+		{Tag: "local alias LA=Plain; var v LA", Stmt: "{ type LA = {q}Plain; var $v LA; _ = $v }", Kind: UKNone, TONL: true, Core: true},
+		{Tag: "local alias LA=Mock; field LA", Stmt: "{ type LA = {q}Mock; type $v struct{ f LA } }", Kind: UKType, Type: "Mock", TONL: true},
+		{Tag: "local alias LA=Plain; field LA", Stmt: "{ type LA = {q}Plain; type $v struct{ f LA } }", Kind: UKNone, TONL: true},
 		// several uses nested inside one statement
 		{Tag: "nested HelperArg(Helper())", Stmt: "{q}HelperArg({q}Helper())", Kind: UKFunc, TONL: true, Core: true,
 			Refs: []UseRef{{Kind: UKFunc}, {Kind: UKFunc}}},
@@ -372,6 +387,9 @@ func usePreludeD(w *lineWriter, m UseMix) {
 		w.add("")
 		w.add("func (s *S2) ResetP() {}")
 		w.add("")
+		w.add("// S3 has its own annotated Reset (a second annotated method of the same name on another receiver).")
+		w.add("type S3 struct{ K int }")
+		w.add("")
 	})
 	fHelper := chunk(func() {
 		w.add("// Helper helps.")
@@ -389,6 +407,10 @@ func usePreludeD(w *lineWriter, m UseMix) {
 		w.add("// Reset resets.")
 		m.ann(w, "", ItReset)
 		w.add("func (s S) Reset() {}")
+		w.add("")
+		w.add("// Reset of S3 carries the same annotation.")
+		m.ann(w, "", ItReset)
+		w.add("func (s S3) Reset() {}")
 		w.add("")
 	})
 	mResetP := chunk(func() {
@@ -493,6 +515,11 @@ func RenderUse(s *UseSpec) *UseRendered {
 				if s.Sites[si].Type == "Mock2" {
 					usesMock2 = true
 				}
+				for _, ref := range s.Sites[si].Refs {
+					if ref.Type == "Mock2" {
+						usesMock2 = true
+					}
+				}
 			}
 		}
 		if usesMock2 {
@@ -507,7 +534,7 @@ func RenderUse(s *UseSpec) *UseRendered {
 			w.add(ind + "// an ordinary comment")
 		}
 	}
-	params := "(s " + q + "S, sp *" + q + "S, y int, s2 " + q + "S2)"
+	params := "(s " + q + "S, sp *" + q + "S, y int, s2 " + q + "S2, s3 " + q + "S3)"
 	for bi, b := range s.Blocks {
 		w := files[b.File]
 		pre(w, "")
